@@ -88,15 +88,19 @@ func runC01CMP(c *fw.Ctx, n, t int, ids []party.ID, hist int) {
 	vname := "sign"
 	switch variant {
 	case 0:
-		ss = scen.NewSession(c, "sg", m.SignMk(signers, msg, []byte(c.Label("sid", "sign")), scen.SignPlain), nil)
+		ss = scen.NewSession(c, "sg", withRetry(c, "sg", len(signers), p, func() map[party.ID]scen.Mk {
+			return m.SignMk(signers, msg, []byte(c.Label("sid", "sign")), scen.SignPlain)
+		}), nil)
 		ss.Run(c, true)
 	case 2:
 		vname = "presign-full"
-		ss = scen.NewSession(c, "sg", m.SignMk(signers, msg, []byte(c.Label("sid", "sign")), scen.SignPresignFull), nil)
+		ss = scen.NewSession(c, "sg", withRetry(c, "sg", len(signers), p, func() map[party.ID]scen.Mk {
+			return m.SignMk(signers, msg, []byte(c.Label("sid", "sign")), scen.SignPresignFull)
+		}), nil)
 		ss.Run(c, true)
 	case 1:
 		vname = "presign+online"
-		ps := scen.NewSession(c, "ps", m.PresignMk(signers, []byte(c.Label("sid", "presign"))), nil)
+		ps := scen.NewSession(c, "ps", withRetry(c, "ps", len(signers), p, func() map[party.ID]scen.Mk { return m.PresignMk(signers, []byte(c.Label("sid", "presign"))) }), nil)
 		ps.Run(c, true)
 		if ps.CheckCrash(c, "presign") || !requireAll(c, p, ps, "presign") {
 			return
